@@ -173,6 +173,12 @@ class Scheduler:
                 "dst": self._slot_for_result(world)}
 
     def build_step(self, world):
+        st = self._build_step(world)
+        if st is not None and self.rng.random() < 0.35:
+            st["repeat"] = True  # the same construction twice must give the same object
+        return st
+
+    def _build_step(self, world):
         r = self.rng
         cfg = self.cfg
         if world.slots and r.random() < 0.15:
@@ -284,9 +290,21 @@ class Scheduler:
             pos = kernel.position(world.slots[a].V, world.slots[b].V)
             if pos == "identical" and not kernel.is_polygonal(world.slots[a].V):
                 continue  # identical curved boundaries: minutes of Newton iterations per call
+            (wa, sa), (wb, sb) = self._curved_cost(world, a), self._curved_cost(world, b)
+            if wa * wb - sa * sb > 120:
+                continue  # cost bound: segment pairs with a curved member (each a Newton search)
             if pos != "contact" or self.cfg["contact_ok"]:
                 return a, b
         return None
+
+    def _curved_cost(self, world, n):
+        """(weighted segment count, straight segments) of the live object (splits included):
+        straight 1, quadratic 2, cubic 4."""
+        live = world.slots[n].live
+        jordans = [live] if kernel.kind(world.slots[n].V) == "J" else list(getattr(live, "jordans", ()) or ())
+        segs = [seg for j in jordans for seg in j.segments]
+        weight = sum({1: 1, 2: 2}.get(seg.degree, 4) for seg in segs)
+        return weight, sum(1 for seg in segs if seg.degree == 1)
 
     def _jordan_index(self, world, n):
         v = world.slots[n].V
@@ -423,7 +441,14 @@ class Scheduler:
                 ca, cb = _center(world.slots[a].V), _center(world.slots[r.choice(others)].V)
                 jitter = r.choice([0, 0, Fraction(1, 3), Fraction(-1, 2)])
                 v = (cb[0] - ca[0] + jitter, cb[1] - ca[1])
-            return {"op": "move", "a": a, "v": _jp(v), "form": r.choice(["args", "tuple"])}
+            if r.random() < 0.08:
+                # tiny and zero translations are translations too
+                # (rational parameters keep denominators <= 10**9: Point2D stores a vector
+                # with limit_denominator(10**9), the library's documented resolution)
+                tiny = [0, Fraction(1, 10**9), -Fraction(1, 10**9), 5e-10, -1e-12, Fraction(1, 10**6)]
+                v = (r.choice(tiny), r.choice(tiny))
+            forms = ["args", "tuple", "args", "tuple", "list", "iter", "gen", "point2d"]
+            return {"op": "move", "a": a, "v": _jp(v), "form": r.choice(forms)}
         if kind == "scale":
             # explored space: coordinates stay below 1e5 (the library's tolerances are absolute)
             extent = max([1.0] + [abs(float(c)) for c in kernel.coords_of(world.slots[a].V)])
@@ -432,6 +457,9 @@ class Scheduler:
                 if extent * 4 > 1e5:
                     sx = Fraction(1, r.randint(2, 8)) if numeric != "float" else r.uniform(0.1, 0.5)
                     return {"op": "scale", "a": a, "sx": J(sx), "sy": J(sx)}
+            if r.random() < 0.06:
+                near = [1, 1, 1.0, 1 + 1e-12, Fraction(10**9 + 1, 10**9), Fraction(10**6 - 1, 10**6)]
+                return {"op": "scale", "a": a, "sx": J(r.choice(near)), "sy": J(r.choice(near))}
             if numeric == "float":
                 lo, hi = (0.01, 100) if big else (0.25, 4)
                 sx = math.exp(r.uniform(math.log(lo), math.log(hi)))
@@ -444,6 +472,9 @@ class Scheduler:
                 sy = sx if r.random() < 0.4 else Fraction(r.randint(1, 8), r.randint(1, 8))
             return {"op": "scale", "a": a, "sx": J(sx), "sy": J(sy)}
         if kind == "rotate":
+            if r.random() < 0.06:
+                ang = r.choice([0, 1e-10, -1e-12, 360, 720, -360, 360.0, 180, -180, 540])
+                return {"op": "rotate", "a": a, "angle": J(ang), "degrees": ang not in (1e-10, -1e-12) or None}
             if r.random() < 0.5:
                 ang = r.choice([30, 45, 90, 180, 270, -60, 17, 360]) if r.random() < 0.5 else r.uniform(-360, 360)
                 return {"op": "rotate", "a": a, "angle": J(ang), "degrees": True}
